@@ -57,7 +57,7 @@ int EvalExpression::run(AsmContext *asm_context, Var &answer, bool is_paren)
       }
 
       Var var;
-      if (run(asm_context, var, true) != 0) { return -1; }
+      if (run_paren(asm_context, var) != 0) { return -1; }
       var_stack.push(var);
       count++;
     }
@@ -228,6 +228,24 @@ int EvalExpression::run(AsmContext *asm_context, Var &answer, bool is_paren)
   return 0;
 }
 
+// Evaluate a parenthesized sub-expression, keeping the recursion bounded.
+int EvalExpression::run_paren(AsmContext *asm_context, Var &answer)
+{
+  static int paren_depth = 0;
+
+  if (paren_depth >= MAX_PAREN_DEPTH)
+  {
+    print_error(asm_context, "Expression is nested too deeply");
+    return -1;
+  }
+
+  paren_depth++;
+  int ret = run(asm_context, answer, true);
+  paren_depth--;
+
+  return ret;
+}
+
 int EvalExpression::execute_stack(VarStack &var_stack, OperStack &oper_stack)
 {
   Operator oper;
@@ -279,7 +297,7 @@ int EvalExpression::parse_unary_new(AsmContext *asm_context, Var &answer)
     else
   if (IS_TOKEN(token, '('))
   {
-    if (run(asm_context, answer, true) != 0) { return -1; }
+    if (run_paren(asm_context, answer) != 0) { return -1; }
   }
     else
   if (IS_TOKEN(token, '~'))
